@@ -461,7 +461,23 @@ theorem inv_finishLoop (cfg : Cfg) (isRead : Bool) (s0 : St) (l : Loop) (h0 : In
     rw [h2]; exact List.Nodup.sublist (List.take_sublist _ _) hnd
   unfold finishLoop
   split
-  · -- a member failed: the struct is re-synchronised with the partial result
+  · split
+    rotate_left
+    · -- write_<struct>, the first member refused: nothing happened
+      rename_i hre
+      have hnil : l.result = [] := by
+        simp only [resyncs, Bool.or_eq_true, Bool.not_eq_true', not_or] at hre
+        exact List.isEmpty_iff.1 (by simpa using hre.2)
+      refine ⟨?_, fun k hk => ?_⟩
+      · show wf cfg l.st.struct = true
+        rw [h1]; exact h0.1
+      · obtain ⟨y, hy1, hy2⟩ := h0.2 k hk
+        refine ⟨y, ?_, ?_⟩
+        · show l.st.struct.lookup k = some y
+          rw [h1]; exact hy1
+        · show l.st.mem.lookup k = some y
+          rw [h4 k, hnil]; exact hy2
+    -- a member failed: the struct is re-synchronised with the partial result
     have key : Inv cfg (assignStruct cfg (Dict.merge l.st.struct l.result) l.st) := by
       apply inv_assignStruct
       · rw [wf_iff, h1]
@@ -818,7 +834,16 @@ theorem inv_finishLoopO (cfg : Cfg) (isRead : Bool) (ov : Overlap) (l : Loop) (h
   have hL2 : Loose cfg (interrupt cfg ov.afterRead (interrupt cfg ov.atEnd l.st)) l.result := loose_interrupt cfg _ _ _ hL1
   simp only [finishLoopO]
   split
-  · -- a member failed: the struct is re-synchronised with the partial result, merged into the value read before
+  · split
+    rotate_left
+    · -- write_<struct>, the first member refused: nothing but what the other threads did
+      rename_i hre
+      have hnil : l.result = [] := by
+        simp only [resyncs, Bool.or_eq_true, Bool.not_eq_true', not_or] at hre
+        exact List.isEmpty_iff.1 (by simpa using hre.2)
+      exact inv_congr cfg (by simp [failedExc]) (by simp [failedExc])
+        (agree_of_loose cfg _ l.result hL2 (fun k x hr => by rw [hnil] at hr; simp [List.lookup] at hr))
+    -- a member failed: the struct is re-synchronised with the partial result, merged into the value read before
     have hwf : wf cfg (Dict.merge (interrupt cfg ov.atEnd l.st).struct l.result) = true := by
       rw [wf_iff, keys_merge]
       · exact (wf_iff cfg _).1 hL1.1
